@@ -1,6 +1,8 @@
 pub mod builder;
 pub mod cache;
 pub mod client;
+pub mod dnssec_world;
+pub mod validator;
 pub mod server;
 pub mod tsig;
 pub mod xfr;
@@ -18,6 +20,7 @@ pub fn scenario_by_name(name: &str) -> Option<Arc<dyn Scenario>> {
         "builder" => Arc::new(builder::BuilderScn),
         "server" => Arc::new(server::ServerScn),
         "tsig" => Arc::new(tsig::TsigScn),
+        "validator" => Arc::new(validator::ValidatorScn),
         "xfr" => Arc::new(xfr::XfrScn),
         "xfr_server" => Arc::new(xfr_server::XfrServerScn),
         "zone_isolation" => Arc::new(zonestore::IsolationScn),
@@ -38,6 +41,11 @@ pub fn check_spec(property: &str) -> Option<CheckSpec> {
             property: "C11",
             level: "exploration",
             scenarios: vec![(Arc::new(tsig::TsigScn), 150_000, 8_000_000)],
+        },
+        "C14" => CheckSpec {
+            property: "C14",
+            level: "exploration",
+            scenarios: vec![(Arc::new(validator::ValidatorScn), 15_000, 500_000)],
         },
         "C15" => CheckSpec {
             property: "C15",
